@@ -31,13 +31,13 @@ Definition outcome_eqb (a b : outcome float) : bool :=
   | _, _ => false
   end.
 
-Definition facF (km m : float) (u : cu) : float := match u with Ckm => km | _ => m end.
+Definition facF (km m : float * float) (u : cu) : float * float := match u with Ckm => km | _ => m end.
 
-(* (geographic, crs units, factor for km, factor for m, forward table, inverse table, arguments, observed) *)
-Definition ccase := (bool * cu * float * float * tbl * tbl * args (T:=float) * outcome float)%type.
+(* (geographic, unit name of the CRS's first axis, factor for km, factor for m, forward table, inverse table, arguments, observed) *)
+Definition ccase := (bool * uname * (float * float) * (float * float) * tbl * tbl * args (T:=float) * outcome float)%type.
 Definition run_create (c : ccase) : outcome float :=
-  let '(geo, cunits, fkm, fm, tf, ti, a, _) := c in
-  create_area_def F64 (lookup tf) (lookup ti) (facF fkm fm) geo cunits a.
+  let '(geo, un, fkm, fm, tf, ti, a, _) := c in
+  create_area_def F64 (lookup tf) (lookup ti) (facF fkm fm) geo (get_proj_units geo un) a.
 Definition chk_create (c : ccase) : bool :=
   let '(_, _, _, _, _, _, _, obs) := c in outcome_eqb (run_create c) obs.
 
@@ -48,16 +48,16 @@ Definition chk_dump (c : area_rec (T:=float) * yentry (T:=float)) : bool :=
 
 (* (parsed YAML entries of the whole file, regions, per entry CRS facts of the loaded CRS
     (geographic, crs units, factor km, factor m), observed loaded areas) *)
-Definition lcase := (list (yentry (T:=float)) * list Z * list (pentry * (bool * cu * float * float)) * res (list (loaded (T:=float))))%type.
-Fixpoint facts_of (t : list (pentry * (bool * cu * float * float))) (p : pentry) : bool * cu * (cu -> float) :=
+Definition lcase := (list (yentry (T:=float)) * list Z * list (pentry * (bool * uname * (float * float) * (float * float))) * res (list (loaded (T:=float))))%type.
+Fixpoint facts_of (t : list (pentry * (bool * uname * (float * float) * (float * float)))) (p : pentry) : bool * cu * (cu -> float * float) :=
   match t with
-  | [] => (false, Cm, facF 1%float 1%float)
-  | (k, (g, u, fkm, fm)) :: r => if pentry_eqb k p then (g, u, facF fkm fm) else facts_of r p
+  | [] => (false, Cm, facF (1, 1)%float (1, 1)%float)
+  | (k, (g, u, fkm, fm)) :: r => if pentry_eqb k p then (g, get_proj_units g u, facF fkm fm) else facts_of r p
   end.
 Definition run_load (c : lcase) : res (list (loaded (T:=float))) :=
   let '(file, regions, facts, _) := c in load_file F64 (facts_of facts) file regions.
 Definition loaded_eqb (a b : loaded (T:=float)) : bool :=
-  (l_id a =? l_id b) && (l_desc a =? l_desc b) && pentry_eqb (l_proj a) (l_proj b) && outcome_eqb (l_out a) (l_out b).
+  (l_id a =? l_id b) && (l_desc a =? l_desc b) && opt_eqb Z.eqb (l_projid a) (l_projid b) && pentry_eqb (l_proj a) (l_proj b) && outcome_eqb (l_out a) (l_out b).
 Definition chk_load (c : lcase) : bool :=
   let '(_, _, _, obs) := c in
   match run_load c, obs with
@@ -76,4 +76,4 @@ Definition snap_es_args : args (T:=float) :=
   @mk_args float None None (Some ((-20, 0x1.3ffff2e48e8a7p+6, 20, 0x1.8ffff2e48e8a7p+6)%float, None)) (Some (20, 40)%float)
            None None None None None.
 Definition run_geo (a : args (T:=float)) : outcome float :=
-  create_area_def F64 (fun _ => None) (fun _ => None) (fun _ => 1%float) true Cdeg a.
+  create_area_def F64 (fun _ => None) (fun _ => None) (fun _ => (1, 1)%float) true Cdeg a.
